@@ -68,7 +68,7 @@ func LockOp(ci ssa.CallInstruction) (lock string, op string, ok bool) {
 	}
 	name := fr.Name
 	if fr.Struct != nil {
-		name = fr.Struct.Obj().Name() + "." + fr.Name
+		name = fr.Struct.Obj().Name() + "." + CanonFieldName(fr.Struct, fr.Name)
 	}
 	return name, f.Name(), true
 }
